@@ -184,6 +184,8 @@ def ac_of_rc(k, r0):
 def run(chk):
     core.run_jobs(chk, jobs(chk))
     obs_events(chk)
+    from .. import session
+    session.run_for(chk, 'C16')      # Session.tla: results do not depend on earlier calls
 
 
 def replay_case(chk, sig, case):
